@@ -264,6 +264,101 @@ pub fn analyze_staged(bytes: &[u8], vm: sle::vm::Config, plan: &Plan, watchdog: 
     finish_obs(r, ctl)
 }
 
+/// The same two entry points with a caller-supplied type-checker configuration.
+pub fn analyze_tc(bytes: &[u8], vm: sle::vm::Config, tc: sle::tc::Config, plan: &Plan, watchdog: DynWatchdog) -> Obs {
+    let (r, ctl) = with_controller(plan, || sle::new(contract(bytes), vm, tc, watchdog).analyze());
+    finish_obs(r, ctl)
+}
+
+pub fn analyze_staged_tc(bytes: &[u8], vm: sle::vm::Config, tc: sle::tc::Config, plan: &Plan, watchdog: DynWatchdog) -> Obs {
+    let (r, ctl) = with_controller(plan, || -> sle::error::Result<StorageLayout> {
+        let e = sle::new(contract(bytes), vm, tc, watchdog);
+        let e = e.disassemble()?;
+        let e = e.prepare_vm()?;
+        let e = e.execute()?;
+        let e = e.prepare_unifier();
+        let e = e.infer()?;
+        Ok(e.layout().clone())
+    });
+    finish_obs(r, ctl)
+}
+
+pub const TC_VARIANTS: usize = 31;
+
+/// Type-checker configurations a user can legitimately build from the public passes and rules: the default, no passes,
+/// no rules, neither, each single pass left out, each single rule left out, the passes in reverse order, and the default
+/// plus the one public rule that is not part of it.
+pub fn tc_variant(i: usize) -> (String, sle::tc::Config) {
+    use sle::tc::lift::{
+        dynamic_array_access::DynamicArrayIndex, mapping_index::MappingIndex, mapping_offset::MappingOffset, mul_shifted::MulShiftedValue,
+        packed_encoding::PackedEncoding, proxy_slots::ProxySlots, recognise_hashed_slots::StorageSlotHashes, storage_slots::StorageSlots,
+        sub_word::SubWordValue, Lift, LiftingPasses,
+    };
+    use sle::tc::rule::*;
+    let passes = |skip: Option<usize>, reverse: bool| {
+        let mut v: Vec<(usize, Box<dyn Lift>)> = vec![
+            (0, StorageSlotHashes::new()),
+            (1, ProxySlots::new()),
+            (2, MappingIndex::new()),
+            (3, SubWordValue::new()),
+            (4, MulShiftedValue::new()),
+            (5, PackedEncoding::new()),
+            (6, DynamicArrayIndex::new()),
+            (7, StorageSlots::new()),
+            (8, MappingOffset::new()),
+        ];
+        v.retain(|(k, _)| Some(*k) != skip);
+        if reverse {
+            v.reverse();
+        }
+        LiftingPasses::new(v.into_iter().map(|(_, p)| p).collect::<Vec<_>>())
+    };
+    let rules = |skip: Option<usize>, extra: bool| {
+        let mut r = InferenceRules::new();
+        let mut k = 0;
+        macro_rules! add {
+            ($rule:expr) => {
+                if Some(k) != skip {
+                    r.add($rule);
+                }
+                k += 1;
+            };
+        }
+        add!(arithmetic_operations::ArithmeticOperationRule);
+        add!(bit_shifts::BitShiftRule);
+        add!(boolean_operations::BooleanOpsRule);
+        add!(call_data::CallDataRule);
+        add!(create::CreateContractRule);
+        add!(dynamic_array_write::DynamicArrayWriteRule);
+        add!(environment_opcodes::EnvironmentCodesRule);
+        add!(external_calls::ExternalCallRule);
+        add!(sha3::HashRule);
+        add!(mapping_access::MappingAccessRule);
+        add!(masked_word::MaskedWordRule);
+        add!(offset_size::OffsetSizeRule);
+        add!(packed_encoding::PackedEncodingRule);
+        add!(s_load_is_inner_types::SLoadIsInnerTypesRule);
+        add!(storage_key::StorageKeyRule);
+        add!(storage_write::StorageWriteRule);
+        let _ = k;
+        if extra {
+            r.add(ext_code::ExtCodeRule);
+        }
+        r
+    };
+    let cfg = |p: LiftingPasses, r: InferenceRules| sle::tc::Config::default().with_lifting_passes(p).with_inference_rules(r);
+    match i {
+        0 => ("default".into(), sle::tc::Config::default()),
+        1 => ("no lifting passes".into(), cfg(LiftingPasses::new(Vec::<Box<dyn Lift>>::new()), rules(None, false))),
+        2 => ("no inference rules".into(), cfg(passes(None, false), InferenceRules::new())),
+        3 => ("no passes and no rules".into(), cfg(LiftingPasses::new(Vec::<Box<dyn Lift>>::new()), InferenceRules::new())),
+        4..=12 => (format!("lifting pass {} left out", i - 4), cfg(passes(Some(i - 4), false), rules(None, false))),
+        13..=28 => (format!("inference rule {} left out", i - 13), cfg(passes(None, false), rules(Some(i - 13), false))),
+        29 => ("lifting passes in reverse order".into(), cfg(passes(None, true), rules(None, false))),
+        _ => ("default rules plus ExtCodeRule".into(), cfg(passes(None, false), rules(None, true))),
+    }
+}
+
 pub fn vm_config_json(c: &sle::vm::Config) -> Value {
     json!({
         "gas_limit": c.gas_limit,
